@@ -1313,3 +1313,36 @@ Proof.
   rewrite (api_closed w c Hc Ha1) by (intros ->; discriminate).
   destruct (IH w Hc Ha2 Hs2) as (os & Hr & Hf). rewrite Hr. eexists. split; [reflexivity|]. constructor; [reflexivity|assumption].
 Qed.
+
+(* ---------- batches are values ---------- *)
+(* The model hands every tick's batch (and Drain's hand-over) to the runner as a list VALUE computed when
+   the handler runs; the wheel state keeps no reference to it.  Hence whatever ticks and calls follow --
+   while the callbacks of the batch are still running -- the batch is the same: the outputs of a prefix of
+   a history are a prefix of the outputs of the history. *)
+Lemma api_run_app cs1 : forall w cs2 w1 o1, api_run w cs1 = Ok (w1, o1) ->
+  api_run w (cs1 ++ cs2) = match api_run w1 cs2 with Ok (w2, o2) => Ok (w2, o1 ++ o2) | Err e => Err e | Panic => Panic end.
+Proof.
+  induction cs1 as [|c cs1 IH]; intros w cs2 w1 o1 H; simpl in *.
+  - inversion H; subst. destruct (api_run w1 cs2) as [[? ?]| |]; reflexivity.
+  - destruct (api w c) as [[w' o]| |]; try discriminate.
+    destruct (api_run w' cs1) as [[w'' os]| |] eqn:E; try discriminate. inversion H; subst.
+    rewrite (IH w' cs2 w1 os E). destruct (api_run w1 cs2) as [[? ?]| |]; reflexivity.
+Qed.
+
+Lemma batches_independent s ops1 ops2 s1 o1 s2 o : run s ops1 = Ok (s1, o1) ->
+  run s (ops1 ++ ops2) = Ok (s2, o) -> firstn (length o1) o = o1 /\ run s1 ops2 = Ok (s2, skipn (length o1) o).
+Proof.
+  intros H1 H2. rewrite (run_app ops1 s ops2 s1 o1 H1) in H2.
+  destruct (run s1 ops2) as [[s2' o2]| |]; try discriminate. inversion H2; subst.
+  rewrite firstn_app, Nat.sub_diag, firstn_all, firstn_O, app_nil_r.
+  rewrite skipn_app, Nat.sub_diag, skipn_all. simpl. auto.
+Qed.
+
+Lemma api_batches_independent w cs1 cs2 w1 o1 w2 o : api_run w cs1 = Ok (w1, o1) ->
+  api_run w (cs1 ++ cs2) = Ok (w2, o) -> firstn (length o1) o = o1 /\ api_run w1 cs2 = Ok (w2, skipn (length o1) o).
+Proof.
+  intros H1 H2. rewrite (api_run_app cs1 w cs2 w1 o1 H1) in H2.
+  destruct (api_run w1 cs2) as [[w2' o2]| |]; try discriminate. inversion H2; subst.
+  rewrite firstn_app, Nat.sub_diag, firstn_all, firstn_O, app_nil_r.
+  rewrite skipn_app, Nat.sub_diag, skipn_all. simpl. auto.
+Qed.
